@@ -135,6 +135,17 @@ def pC09 (k : Nat) (ds : List Doc) : String :=
         | .ok s => go rest (acc ++ " " ++ under (sexp s))
     go ds ("ok " ++ under (sexp base))
 
+/-- mirror of the harness' `p_cycle`: printed size of the shape of the group fed 2, 4, 8, 16 times -/
+def pCycle (ds : List Doc) : String :=
+  let rep (m : Nat) : List Doc := (List.replicate m ds).flatten
+  let rec go : List Nat → String → String
+    | [], acc => acc
+    | m :: ms, acc =>
+      match fromSourcesDoc (rep m) with
+      | .error _ => "skip"
+      | .ok s => go ms (acc ++ " " ++ toString (sexp s).utf8ByteSize)
+  go [2, 4, 8, 16] "ok"
+
 def tokName : Tok → String
   | .eof => "EOF" | .ws => "Whitespace" | .nl => "Newline" | .true_ => "True" | .false_ => "False"
   | .null_ => "Null" | .lbrace => "LBrace" | .rbrace => "RBrace" | .lbrak => "LBrak" | .rbrak => "RBrak"
@@ -426,6 +437,10 @@ def step (line : String) : String :=
       match docsOfHex hs, k.toNat? with
       | some ds, some k => pC09 k ds
       | _, _ => "not-json"
+  | "p_cycle" :: hs =>
+      match docsOfHex hs with
+      | some ds => pCycle ds
+      | none => "not-json"
   | ["p_keeps", s0, a, c] => withShape s0 fun s0 => withShape a fun a => withShape c fun c =>
       let m := merger a c
       if !isSubset c m then "violated new: " ++ sexp c ++ " not in " ++ sexp m
